@@ -165,6 +165,14 @@ pub fn representatives(seed: u64) -> Vec<Vec<u8>> {
         b"\r\n".to_vec(),
         ref_encode(0x0010, 0, &[8, 4, 2, 1], true),
         ref_encode(0x0010, 0, &[1, 2, 4, 8], true),
+        // the body of the first representative with other terminators / case (a memo keyed on a trimmed line would hit)
+        ref_encode(0x0003, 2, &[0xFF], false),
+        { let mut x = ref_encode(0x0003, 2, &[0xFF], false); x.push(b'\n'); x },
+        { let mut x = ref_encode(0x0003, 2, &[0xFF], false); x.push(b'\r'); x },
+        { let mut x = ref_encode(0x0003, 2, &[0xFF], true); x.extend_from_slice(b"\r\n"); x },
+        { let mut x = ref_encode(0x0003, 2, &[0xFF], false); x.extend_from_slice(b" \r\n"); x },
+        { let mut x = ref_encode(0x0003, 2, &[0xFF], false); x.push(b'\t'); x },
+        ref_encode(0x0003, 2, &[0xFF], true).to_ascii_lowercase(),
     ]
 }
 
@@ -243,6 +251,13 @@ fn bases(seed: u64) -> Vec<(String, Vec<u8>)> {
     out.push(("near: wrong checksum".into(), b":01000302FF00".to_vec()));
     out.push(("near: wrong length".into(), b":02000302FFFA".to_vec()));
     out.push(("near: minimal".into(), b":0000000000".to_vec()));
+    // more than 255 data bytes with a length field that agrees modulo 256 and a consistent checksum
+    {
+        let mut x = b":00000000".to_vec();
+        x.extend(std::iter::repeat(b'0').take(512));
+        x.extend_from_slice(b"00");
+        out.push(("near: declares 0, carries 256 data bytes".into(), x));
+    }
     out
 }
 
